@@ -100,6 +100,41 @@
         {
             let mut env = Environment::new();
             env.set_debug(true);
+            fn lazy_source(name: &str) -> Option<String> {
+                let filler = "a line of plain text with caf\u{e9}s and \u{20ac} signs\n".repeat(12);
+                match name {
+                    "short_inc.txt" => Some("{% include 'long_broken.txt' %}".to_string()),
+                    "short_ext.txt" => Some("{% extends 'long_broken.txt' %}".to_string()),
+                    "short_imp.txt" => Some("{% import 'long_broken.txt' as b %}".to_string()),
+                    "short_loop.txt" => Some("{% for i in [1] %}\n{% include 'short_mid.txt' %}\n{% endfor %}".to_string()),
+                    "short_mid.txt" => Some("mid:\n{% include 'long_broken.txt' %}".to_string()),
+                    "long_broken.txt" => Some(format!("{filler}<p>{{{{ title }}}}</p>\n{{% if user %}}hello {{{{ user + }}}}{{% endif %}}\n{filler}")),
+                    _ => None,
+                }
+            }
+            let mut lazy = Environment::new();
+            lazy.set_debug(true);
+            lazy.set_loader(|name: &str| -> Result<Option<String>, crate::Error> { Ok(lazy_source(name)) });
+            for outer in ["short_inc.txt", "short_ext.txt", "short_imp.txt", "short_loop.txt"] {
+                let e = lazy.get_template(outer).unwrap().render(()).unwrap_err();
+                let mut cur: Option<&(dyn std::error::Error + 'static)> = Some(&e);
+                while let Some(x) = cur {
+                    if let Some(me) = x.downcast_ref::<crate::Error>() {
+                        if let Some(name) = me.name() {
+                            let real = lazy_source(name).unwrap_or_else(|| panic!("error names unknown template {name:?}"));
+                            if let Some(reported) = me.template_source() { assert!(reported == real, "{outer}: the error located in {name:?} reports the source of a different template"); }
+                            if let Some(r) = me.range() {
+                                let reported = me.template_source().unwrap_or(&real);
+                                assert!(reported.get(r.clone()).is_some(), "{outer}: range {r:?} of the error in {name:?} is not a slice of its source ({} bytes)", reported.len());
+                                let l = reported[..r.start].matches('\n').count() + 1;
+                                assert!(Some(l) == me.line(), "{outer}: range starts on line {l} but the error says line {:?}", me.line());
+                            }
+                            let _ = format!("{me} {me:#} {me:?} {}", me.display_debug_info());
+                        }
+                    }
+                    cur = x.source();
+                }
+            }
             env.set_loader(|name: &str| -> Result<Option<String>, crate::Error> {
                 Ok(match name {
                     "outer.txt" => Some(format!("{}{{% include 'inner.txt' %}}", "line\n".repeat(100))),
